@@ -12,7 +12,7 @@ RULE = ('sequences of 2-6 tests in one layer; every test starts 0-3 threads '
         'at the start / middle / end of a later test, or never; includes the '
         'schedule "an earlier leak ends and a new thread starts in the same '
         'test" (thread-ident reuse). Exhaustive for 2 tests with <=1 thread '
-        'each over (api x name class x release point) = 390 histories, '
+        'each over (api x name class x release point) = 900 histories (apis: threading, _thread, _thread whose body uses the threading module), '
         'random beyond. Ground truth = the world\'s own ledger (which test '
         'started which thread; alive set sampled in the test\'s last '
         'cleanup). Oracle: per test, reported set == started-here & alive & '
@@ -39,7 +39,7 @@ def batch_size(tier):
 def enum_two():
     """All histories of 2 tests with <=1 thread each."""
     out = []
-    apis = ['threading', '_thread']
+    apis = ['threading', '_thread', '_thread_touch']
     names = ['default', 'named', 'ignored']
     rel0 = [('same', None)] + [(1, ph) for ph in ('setUp', 'body',
                                                    'tearDown')] + \
@@ -66,8 +66,10 @@ def cases(tier, seed):
                                        ['ign-.*\\d$']])})
     # ident-reuse schedules: leak from test 0 released in test 1's body,
     # immediately followed by a fresh thread that stays alive
-    for a0, a1, n1 in itertools.product(['threading', '_thread'],
-                                        ['threading', '_thread'],
+    for a0, a1, n1 in itertools.product(['threading', '_thread',
+                                         '_thread_touch'],
+                                        ['threading', '_thread',
+                                         '_thread_touch'],
                                         ['default', 'named']):
         for rep in range(3 if tier == 'quick' else 12):
             idx += 1
@@ -91,7 +93,8 @@ def cases(tier, seed):
                 else:
                     rel = (rng.choice(later),
                            rng.choice(['setUp', 'body', 'tearDown']))
-                ths.append({'api': rng.choice(['threading', '_thread']),
+                ths.append({'api': rng.choice(['threading', '_thread',
+                                               '_thread_touch']),
                             'name': rng.choice(['default', 'named',
                                                 'ignored', 'midign']),
                             'rel': rel})
@@ -246,7 +249,11 @@ def run_case(case):
             want.add(key)
         C('leaks_expected', len(want))
         C('dummy_threads', sum(1 for k in want
-                               if keys[k]['api'] == '_thread'))
+                               if keys[k]['api'].startswith('_thread')))
+        C('touch_threads_gone', sum(
+            1 for k, rec in started.items()
+            if keys[k]['api'] == '_thread_touch' and k not in alive
+            and rec['test'] <= i))
         by_ident = {started[k]['ident']: k for k in alive}
         got = set()
         unknown = []
